@@ -33,7 +33,12 @@ client certificate is an identity (a natural number) that parses, chains to the 
 ClientCAs and proves possession (C07's subject) — what resumption adds is WHICH identity the
 server reports, under which policy, and whether its callbacks see it.
 Identifiers come from `src : Nat → Nat` (the trusted random source `Config.rand`); secrets
-and randoms are the successive naturals.
+and randoms are the successive naturals. An identifier is an OPAQUE value (the wire type is
+`opaque SessionID<0..32>`): it has no length here, because no step of either endpoint reads
+anything but its equality with another identifier (cache key, echo) — on the server this is the
+regenerated fact `resOfferedIdReaders` (`C10_facts_opaque_id`). A forged / foreign identifier
+(`Pre.forge`) therefore stands for identifiers of every length 1..32; the correspondence offers
+all of them.
 
 Core Lean only: linked into the oracle executable.
 -/
@@ -85,7 +90,7 @@ deriving Repr
 
 inductive Pre where
   | junk (k : Nat)     -- k Puts of unrelated fresh sessions under fresh keys
-  | forge (certs : Bool)  -- Put(dst, session with an identifier no server issued [+ the server's certificates])
+  | forge (certs : Bool)  -- Put(dst, session with an identifier no server issued, of any length 1..32 [+ the server's certificates])
   | stale (d : Nat)    -- Put(dst, copy of what Get(destination d) returns, unless it is wiped)
   | dropServer         -- the server's cache is replaced by an empty one
 deriving Repr, DecidableEq
